@@ -298,28 +298,47 @@ HeaderDiffs(flat, base, hs, tag) ==
         LET p == base \o <<P(K_headers), P(hs[j].name), Item(1)>> IN
         ~(Len(Values(flat, p)) = 1 /\ Val(flat, p) = hs[j].value)}}
     \cup (IF Len(Under(flat, base \o <<P(K_headers)>>)) # Len(hs) THEN {tag} ELSE {})
+K_encoding == <<101, 110, 99, 111, 100, 105, 110, 103>>
+LowerA(t) == [j \in 1..Len(t) |-> IF t[j] >= 65 /\ t[j] <= 90 THEN t[j] + 32 ELSE t[j]]
+Utf8Names == {<<117, 116, 102, 45, 56>>, <<117, 116, 102, 56>>}
+Latin1Names == {<<105, 115, 111, 45, 56, 56, 53, 57, 45, 49>>, <<108, 97, 116, 105, 110, 45, 49>>, <<108, 97, 116, 105, 110, 49>>}
+(* text a body stands for under the character encoding the cassette declares next to it: UTF-8, ISO-8859-1 (every byte is its own
+   code point); any other declared encoding is outside the judged fragment *)
 BodyDiffs(flat, base, has, bytes, preserve, tag) ==
     LET ps == base \o <<P(K_body), P(K_string)>>
-        pb == base \o <<P(K_body), P(K_base64_string)>> IN
+        pb == base \o <<P(K_body), P(K_base64_string)>>
+        pe == base \o <<P(K_body), P(K_encoding)>> IN
     IF ~has \/ (bytes = <<>> /\ ~Has(flat, ps) /\ ~Has(flat, pb))
     THEN (IF (Has(flat, ps) /\ Val(flat, ps) # <<>>) \/ (Has(flat, pb) /\ Val(flat, pb) # <<>>) THEN {tag} ELSE {})
     ELSE IF preserve
     THEN (IF Len(Values(flat, pb)) = 1 /\ B64(Val(flat, pb)).ok /\ B64(Val(flat, pb)).bytes = bytes THEN {} ELSE {tag})
-    ELSE (IF ~Utf8(bytes).ok THEN {}                      \* lossy by definition without preserve-bytes: not judged
-          ELSE IF Len(Values(flat, ps)) = 1 /\ Val(flat, ps) = Utf8(bytes).text THEN {} ELSE {tag})
-CheckDiffs(flat, e, cs) ==
-    {"checks" : i \in {j \in 1..Len(cs) :
-        LET b == e \o <<P(K_checks), Item(j)>> IN
-        ~(/\ Len(Values(flat, b \o <<P(K_name)>>)) = 1 /\ Val(flat, b \o <<P(K_name)>>) = cs[j].name
-          /\ Len(Values(flat, b \o <<P(K_status)>>)) = 1 /\ Val(flat, b \o <<P(K_status)>>) = cs[j].status)}}
-    \cup {"check-message" : i \in {j \in 1..Len(cs) :
-        LET p == e \o <<P(K_checks), Item(j), P(K_message)>> IN
-        ~(/\ Len(Values(flat, p)) = 1
-          /\ IF cs[j].hasMsg THEN Style(flat, p) \in {"sq", "dq"} /\ Val(flat, p) = cs[j].msg
-                             ELSE Style(flat, p) = "null")}}
-    \cup (IF Len(SelectSeq(flat.out, LAMBDA o : IsPrefix(e \o <<P(K_checks)>>, o.path) /\ Len(o.path) = Len(e) + 3
-                                                  /\ o.path[Len(e) + 3] = P(K_name))) # Len(cs)
-          THEN {"checks"} ELSE {})
+    ELSE IF Len(Values(flat, pe)) # 1 \/ Len(Values(flat, ps)) # 1 THEN {tag}
+    ELSE IF LowerA(Val(flat, pe)) \in Latin1Names THEN (IF Val(flat, ps) = bytes THEN {} ELSE {tag})
+    ELSE IF LowerA(Val(flat, pe)) \in Utf8Names
+    THEN (IF ~Utf8(bytes).ok THEN {}                      \* lossy by definition without preserve-bytes: not judged
+          ELSE IF Val(flat, ps) = Utf8(bytes).text THEN {} ELSE {tag})
+    ELSE {}
+NChecks(flat, e) == Len(SelectSeq(flat.out, LAMBDA o : IsPrefix(e \o <<P(K_checks)>>, o.path) /\ Len(o.path) = Len(e) + 3
+                                                        /\ o.path[Len(e) + 3] = P(K_name)))
+CheckAt(flat, e, k, c) ==
+    LET b == e \o <<P(K_checks), Item(k)>>
+        p == b \o <<P(K_message)>> IN
+    /\ Len(Values(flat, b \o <<P(K_name)>>)) = 1 /\ Val(flat, b \o <<P(K_name)>>) = c.name
+    /\ Len(Values(flat, b \o <<P(K_status)>>)) = 1 /\ Val(flat, b \o <<P(K_status)>>) = c.status
+    /\ Len(Values(flat, p)) = 1
+    /\ IF c.hasMsg THEN Style(flat, p) \in {"sq", "dq"} /\ Val(flat, p) = c.msg ELSE Style(flat, p) = "null"
+(* exact = cs are ALL check results of the exchange, in order; otherwise every expected result must be among the recorded ones
+   (a CLI run adds checks of its own) *)
+CheckDiffs(flat, e, cs, exact) ==
+    IF exact
+    THEN {"checks" : j \in {j \in 1..Len(cs) : ~CheckAt(flat, e, j, cs[j])}}
+         \cup (IF NChecks(flat, e) # Len(cs) THEN {"checks"} ELSE {})
+    ELSE {"checks" : j \in {j \in 1..Len(cs) : ~\E k \in 1..NChecks(flat, e) : CheckAt(flat, e, k, cs[j])}}
+(* the fragment of a URL is never transmitted: a recorded URI may carry one in addition to what was sent *)
+StripFragment(t) == IF \E j \in 1..Len(t) : t[j] = HASH
+                    THEN SubSeq(t, 1, (CHOOSE j \in 1..Len(t) : t[j] = HASH /\ \A m \in 1..(j - 1) : t[m] # HASH) - 1)
+                    ELSE t
+UriMatches(recorded, sent) == recorded = sent \/ StripFragment(recorded) = sent
 EntryDiffs(flat, n, x, preserve) ==
     LET e == Entry(n)
         rq == e \o <<P(K_request)>>
@@ -327,11 +346,11 @@ EntryDiffs(flat, n, x, preserve) ==
         one(p, v, tag) == IF Len(Values(flat, p)) = 1 /\ Val(flat, p) = v THEN {} ELSE {tag} IN
     one(e \o <<P(K_id)>>, x.id, "id")
     \cup one(e \o <<P(K_status)>>, ExpStatus(x), "status")
-    \cup one(rq \o <<P(K_uri)>>, x.uri, "uri")
+    \cup (IF Len(Values(flat, rq \o <<P(K_uri)>>)) = 1 /\ UriMatches(Val(flat, rq \o <<P(K_uri)>>), x.uri) THEN {} ELSE {"uri"})
     \cup one(rq \o <<P(K_method)>>, x.method, "method")
     \cup HeaderDiffs(flat, rq, x.reqHeaders, "request-header")
     \cup BodyDiffs(flat, rq, x.hasReqBody, x.reqBody, preserve, "request-body")
-    \cup CheckDiffs(flat, e, x.checks)
+    \cup CheckDiffs(flat, e, x.checks, x.checksExact)
     \cup (IF x.hasResp
           THEN one(rs \o <<P(K_status), P(K_code)>>, x.code, "status-code")
                \cup one(rs \o <<P(K_status), P(K_message)>>, x.reason, "reason")
@@ -340,6 +359,10 @@ EntryDiffs(flat, n, x, preserve) ==
           ELSE (IF Len(Values(flat, rs)) = 1 /\ Style(flat, rs) = "null" THEN {} ELSE {"response"}))
     \cup (IF x.covDesc.has
           THEN one(e \o <<P(K_phase), P(K_data), P(K_description)>>, x.covDesc.v, "coverage-description")
+               \cup {"coverage-data" : j \in {j \in 1..Len(x.covExtra) :
+                        LET p == e \o <<P(K_phase), P(K_data), P(x.covExtra[j].key)>> IN
+                        ~(Len(Values(flat, p)) = 1 /\ IF x.covExtra[j].has THEN Style(flat, p) = "dq" /\ Val(flat, p) = x.covExtra[j].v
+                                                                            ELSE Style(flat, p) = "null")}}
           ELSE {})
 
 ---------------------------------------------------------------------------
@@ -371,7 +394,7 @@ HarBody(hasField, text, b64, has, bytes, preserve, tag) ==
     ELSE IF text = Utf8(bytes).text /\ ~b64 THEN {} ELSE {tag}
 HarDiffs(h, x, preserve) ==
     (IF h.method = x.method THEN {} ELSE {"method"})
-    \cup (IF h.url = x.uri THEN {} ELSE {"uri"})
+    \cup (IF UriMatches(h.url, x.uri) THEN {} ELSE {"uri"})
     \cup (IF SeqToSet(h.reqHeaders) = SeqToSet(x.reqHeaders) /\ Len(h.reqHeaders) = Len(x.reqHeaders) THEN {} ELSE {"request-header"})
     \cup HarBody(h.hasPost, h.postText, preserve, x.hasReqBody, x.reqBody, preserve, "request-body")
     \cup (IF x.hasResp
@@ -384,7 +407,7 @@ HarDiffs(h, x, preserve) ==
 ---------------------------------------------------------------------------
 (* the bounded string family: every string over Alphabet up to MaxLen, built by appending (state count = family size) *)
 CONSTANTS MaxLen
-Alphabet == {97, SQ, DQ, BSL, COLON, HASH, 10, 0, 8232, 233, 55296, SP, DASH, 123, 91, 128512}
+Alphabet == {97, SQ, DQ, BSL, COLON, HASH, 10, 0, 1, 8232, 233, 55296, SP, DASH, 123, 91, 128512}
 VARIABLE str
 YInit == str = <<>>
 YNext == Len(str) < MaxLen /\ \E c \in Alphabet : str' = Append(str, c)
